@@ -342,6 +342,7 @@ type tunnelServerStream struct {
 
 	// for sending frames to client
 	writeMu     sync.Mutex
+	writeErr    error
 	numSent     uint32
 	headers     metadata.MD
 	trailers    metadata.MD
@@ -474,6 +475,12 @@ func (st *tunnelServerStream) SendMsg(m interface{}) error {
 		}
 		return status.Error(codes.Internal, "stream is already finished")
 	}
+	if st.writeErr != nil {
+		// A previous message could not be sent completely (for example, the
+		// deadline passed while waiting for flow control window), so part of
+		// it may already be on the wire. No other message can follow it.
+		return st.writeErr
+	}
 
 	if !st.sentHeaders {
 		if err := st.sendHeadersLocked(); err != nil {
@@ -495,7 +502,11 @@ func (st *tunnelServerStream) SendMsg(m interface{}) error {
 		return status.Errorf(codes.ResourceExhausted, "serialized message is too large: %d bytes > maximum %d bytes", len(b), math.MaxUint32)
 	}
 
-	return st.sender.send(b)
+	if err := st.sender.send(b); err != nil {
+		st.writeErr = err
+		return err
+	}
+	return nil
 }
 
 func (st *tunnelServerStream) RecvMsg(m interface{}) error {
